@@ -182,7 +182,7 @@ def build(seed, tier, log=vp.log):
         f = a.split("\t")
         g.wf = (f[1] == "1") if f[0] == "WF" else None        # WellFormed.well_formed of the grammar
         g.wf_lr = (f[2] == "1") if f[0] == "WF" and len(f) > 2 else None   # LRTerm.well_formed_lr (with @leftrec rules)
-        g.wf_once = (f[3] == "1") if f[0] == "WF" and len(f) > 3 else None  # OnceWF.well_formed_once (the packrat bound's certificate)
+        g.wf_once = (f[3] == "1") if f[0] == "WF" and len(f) > 3 else None  # OnceWF.well_formed_once_all (the packrat bound's certificate, any rule as start)
     for g, a in zip(withsx, cout):
         g.mcompile = a
         if a.startswith("OK\t") and g.gen == "CODE":
